@@ -142,6 +142,17 @@ def observe(case, props, queries=(), lookups=(), direct=()) -> dict:
         r2, _ = _q(bpm.timestamp_at_tick, t)
         rec["qs"].append({"t": int(t), "raised": r1})
         rec["qs"].append({"t": int(t), "raised": r2})
+        if t < 0:
+            # the rate query with a negative tick bound is a query for a negative tick too
+            for inst, dd in chart.instrument_tracks.items():
+                for diff, tr in dd.items():
+                    if tr.note_events:
+                        r3, _ = _q(chart.notes_per_second, inst, diff, t)
+                        r4, _ = _q(chart.notes_per_second, inst, diff, t, 10**7)
+                        r5, _ = _q(chart.notes_per_second, inst, diff, 0, t)
+                        rec["qs"] += [{"t": int(t), "raised": r3}, {"t": int(t), "raised": r4}, {"t": int(t), "raised": r5}]
+                    break
+                break
     rec["obs"].sort(key=lambda o: o["t"])
     return rec
 
